@@ -78,6 +78,16 @@ EncCases(g) ==
 \* ---- hashing -----------------------------------------------------------------------------------------
 HashInts(m, nb) == { Zero, One, Sub(m, One), m, Add(m, One), Sub(Pow2(8 * nb - 1), One), Pow2(8 * nb - 1), Sub(Pow2(8 * nb), One),
                      Add(Pow2(8 * nb - 1), Sub(m, One)), Add(Pow2(8 * nb - 2), m) }
+\* hashes whose first curve point over Fq2 has its y in the base field (y = (c0, 0)): x = u + v i with Im(x^3 + 4 + 4i) = 0, i.e. u^2 = (v^3 - 4)/(3v),
+\* and Re(x^3 + 4 + 4i) a square of Fq.  For such y the order of the two roots is decided by the SECOND key of the lexicographic comparison.
+SubfieldY ==
+  UNION { LET t == QMul(QSub(QMul(QMul(FromNat(v), FromNat(v)), FromNat(v)), FromNat(4)), QInv(FromNat(3 * v)))
+          IN IF ~IsSq(1, t) THEN {}
+             ELSE { <<u, FromNat(v)>> : u \in { uu \in { QSqrt(t), QNeg(QSqrt(t)) } :
+                                                 IsSq(1, QAdd(QSub(QMul(QMul(uu, uu), uu), QMul(FromNat(3 * v * v), uu)), FromNat(4))) } }
+          : v \in 1..(IF Tier = "quick" THEN 40 ELSE 120) }
+SubfieldYCases == SetToSeq({ [op |-> "hash.g2", hash |-> ToBE(Add(x[2], top), 48) \o ToBE(x[1], 48), cls |-> "y-in-base-field", src |-> "gen"] : x \in SubfieldY, top \in { Zero, Pow2(383) } })
+
 HashCases ==
   SetToSeq({ [op |-> "hash.zp", hash |-> ToBE(v, 32), src |-> "gen"] : v \in HashInts(RMod, 32) \cup { ModPow2(Rnd(k), 256) : k \in 40..44 } })
   \o SetToSeq({ [op |-> "hash.scalar_reduce", n |-> Pad(v, 32), src |-> "gen"] : v \in HashInts(RMod, 32) })
@@ -85,6 +95,7 @@ HashCases ==
                 v \in { x \in HashInts(QMod, 48) \cup { Sub(Pow2(381), One), Pow2(381), Add(Pow2(381), FromNat(2)) } \cup { FromNat(k) : k \in 0..12 } \cup { Rnd(k) : k \in 50..55 } : Lt(x, Pow2(384)) } })
   \o SetToSeq({ [op |-> "hash.g2", hash |-> ToBE(v, 48) \o ToBE(w, 48), src |-> "gen"] :
                 v \in { Zero, One, Sub(QMod, One), QMod, Sub(Pow2(384), One), Rnd(60) }, w \in { Zero, FromNat(3), Sub(QMod, One), Add(QMod, FromNat(5)), Pow2(383), Rnd(61) } })
+  \o SubfieldYCases
 
 \* ---- scripted random streams -------------------------------------------------------------------------
 LE(v, n) == ToSeq(Pad(v, n))
